@@ -1119,6 +1119,7 @@ _TOK_RT_VALUES: list[tuple[str, str]] = [
     ('unicode line boundary', 'a\x0bb'), ('unicode line boundary', 'a\x0cb'), ('unicode line boundary', 'a\x1cb'), ('unicode line boundary', 'a\x1db'),
     ('unicode line boundary', 'a\x1eb'), ('unicode line boundary', 'a\x85b'), ('unicode line boundary', 'a b'), ('unicode line boundary', 'a b'),
     ('unicode line boundary', 'a '), ('non-ascii', '\xe9t\xe9'), ('non-ascii', '中文'), ('non-ascii', 'x\xa0y'), ('non-ascii', '　x'),
+    ('leading blank', '    '), ('leading blank', ' '), ('tab', '\t'), ('leading blank', ' \t'),         # indentations
     ('case', 'MiXed'), ('case', 'lower'), ('case', 'UPPER'), ('digits', '0123'), ('digits', 'a1'),
 ]
 
@@ -1129,24 +1130,25 @@ _TOK_RT_NOT_A_VALUE = {
 }
 
 
-def rule_tok_rt(ctx: RuleContext, p: Program, g: rx.Grammar, rid: str) -> None:
+def rule_tok_rt(ctx: RuleContext, p: Program, g: rx.Grammar, rid: str, only: Optional[tuple] = None) -> None:
     """text-valued token classes: _parse_value(_format_value(v)) == v, both interpreted on concrete texts"""
     from . import possem
     from .tokenstore import TS
-    ctx.rule(rid, 'every token class whose value is a text and that spells its own _format_value / _parse_value (EscapedString and BlockComment have '
+    ctx.rule(rid, 'every token class whose value is a text, with the _format_value / _parse_value it resolves to (its own or inherited; EscapedString and BlockComment have '
                   'their own rules): both functions are interpreted from their ASTs on a pool of %d texts (empty, blanks at either end, tabs, a '
                   'leading or inner semicolon / marker character, a trailing colon, quote, backslash, the eight characters str.splitlines() breaks '
                   'at besides CR and LF, non-ASCII, mixed case).  For every v whose written text is a lexeme of the class\'s terminal: the text reads '
                   'back as exactly v; and for every lexeme written that way, formatting the value read from it gives the lexeme again' % len(_TOK_RT_VALUES))
     ts = TS(p)
-    n_cls = n_pairs = 0
+    n_cls = n_pairs = n_all = 0
     for c in p.registered('token_model'):
-        fmt = c.attrs.get('_format_value')
-        prs = c.attrs.get('_parse_value')
+        fmt = c.lookup('_format_value')
+        prs = c.lookup('_parse_value')
         if not isinstance(fmt, FuncInfo) or not isinstance(prs, FuncInfo) or len(fmt.params) != 2 or len(prs.params) != 2:
             continue
+        own_pair = isinstance(c.attrs.get('_format_value'), FuncInfo) and isinstance(c.attrs.get('_parse_value'), FuncInfo)
         ann = norm(fmt.node.args.args[1].annotation) if fmt.node.args.args[1].annotation else ''
-        if ann != 'str' or c.name in ('EscapedString', 'BlockComment'):
+        if ann != 'str' or c.name in ('EscapedString', 'BlockComment') or (only is not None and c.name not in only):
             continue
         rule = p.class_const(c, 'RULE')
         tname = rule.value if isinstance(rule, ast.Constant) else None
@@ -1157,14 +1159,41 @@ def rule_tok_rt(ctx: RuleContext, p: Program, g: rx.Grammar, rid: str) -> None:
         for f in getattr(pat, 'flags', ()) or ():
             flags |= {'i': re.I, 'm': re.M, 's': re.S, 'x': re.X, 'u': re.U}.get(f, 0)
         term = re.compile(pat.to_regexp(), flags)
-        n_cls += 1
+        n_cls += int(own_pair)
         site = f'{c.module.name.split(".", 1)[1]}:{c.name}'
         clsobj = possem.Obj(c.name + 'Class', {}, 'cls')
         bad: dict[str, str] = {}
         n_here = 0
 
+        def is_lexeme(raw_: str, term: Any = term) -> bool:
+            # alone, or -- for a terminal that ends with a look-ahead (INDENT wants something on the line) -- followed by a letter or a line end
+            if term.fullmatch(raw_):
+                return True
+            for tail in ('x', '\n'):
+                m_ = term.match(raw_ + tail)
+                if m_ is not None and m_.end() == len(raw_) and raw_:
+                    return True
+            return False
+
+        class Interp(possem.PosInterp):
+            tag = 'TOK-RT'
+
+            def expr(self, e: Any, env: dict) -> Any:                 # type: ignore[override]
+                # cls.CONSTANT / cls.helper(...) of the token class itself
+                if isinstance(e, ast.Attribute) and isinstance(e.value, ast.Name) and env.get(e.value.id) is clsobj:
+                    k_ = p.class_const(c, e.attr)
+                    if k_ is not None:
+                        return self.expr(k_, {})
+                if isinstance(e, ast.Call) and isinstance(e.func, ast.Attribute) and isinstance(e.func.value, ast.Name) and env.get(e.func.value.id) is clsobj:
+                    h = c.lookup(e.func.attr)
+                    if isinstance(h, FuncInfo):
+                        a = [self.expr(x, env) for x in e.args]
+                        kw = {k.arg: self.expr(k.value, env) for k in e.keywords if k.arg}
+                        return self.call_function(h, a if h.kind == 'staticmethod' else [clsobj] + a, kw)
+                return super().expr(e, env)
+
         def run(fn: FuncInfo, arg: str) -> Any:
-            return possem.PosInterp(ts, [], module=c.module).call_function(fn, [clsobj, arg], {})
+            return Interp(ts, [], module=fn.module).call_function(fn, [clsobj, arg], {})
 
         for cat, v in _TOK_RT_VALUES:
             if (c.name, v) in _TOK_RT_NOT_A_VALUE:
@@ -1173,12 +1202,10 @@ def rule_tok_rt(ctx: RuleContext, p: Program, g: rx.Grammar, rid: str) -> None:
                 raw = run(fmt, v)
             except possem.Raised:
                 continue                          # a refused value is outside the domain
-            except possem.Unsupported as ex:
-                raise AnalysisError(f'TOK-RT: {site}._format_value cannot be interpreted: {ex}')
             if not isinstance(raw, str):
                 bad.setdefault(cat, f'_format_value({v!r}) returns {raw!r}, not a text')
                 continue
-            if not term.fullmatch(raw):
+            if not is_lexeme(raw):
                 continue                          # not a lexeme of the terminal: v is outside the domain of this token type (TERM-DOMAIN / FMT-LANG decide the reach)
             n_here += 1
             try:
@@ -1186,8 +1213,6 @@ def rule_tok_rt(ctx: RuleContext, p: Program, g: rx.Grammar, rid: str) -> None:
             except possem.Raised as ex:
                 bad.setdefault(cat, f'from_value({v!r}) writes {raw!r}, a {tname} lexeme, and _parse_value raises {ex} on it')
                 continue
-            except possem.Unsupported as ex:
-                raise AnalysisError(f'TOK-RT: {site}._parse_value cannot be interpreted: {ex}')
             if back != v or type(back) is not str:
                 bad.setdefault(cat, f'from_value({v!r}) writes {raw!r}, which is a {tname} lexeme and reads back as {back!r}: the value assigned is not the '
                                     f'value the document holds')
@@ -1200,14 +1225,21 @@ def rule_tok_rt(ctx: RuleContext, p: Program, g: rx.Grammar, rid: str) -> None:
             if again != raw:
                 bad.setdefault(cat, f'{raw!r} reads as {back!r}, which is written as {again!r}')
         n_pairs += n_here
-        if n_here < 3:
+        n_all += 1
+        if n_here < 3 and own_pair:
             raise AnalysisError(f'TOK-RT: only {n_here} of the pool values are {tname} lexemes when written by {site}._format_value')
         if bad:
             for cat, why in sorted(bad.items()):
                 ctx.check(False, rid, site, f'values with: {cat}', why, fmt.where)
         else:
             ctx.check(True, rid, site, 'parse(format(v)) == v', '', fmt.where, note=f'{n_here} in-domain values of the pool')
+    if only is not None:
+        if n_all != len(only):
+            raise AnalysisError(f'TOK-RT: of the classes {only} only {n_all} found')
+        return
     if n_cls < 5:
         raise AnalysisError(f'TOK-RT: only {n_cls} text-valued token classes with their own format/parse pair found (5 confirmed by hand)')
-    ctx.stats.setdefault('tok_rt', {})['classes'] = n_cls
+    if n_all < 9:
+        raise AnalysisError(f'TOK-RT: only {n_all} text-valued token classes found (10 confirmed by hand)')
+    ctx.stats.setdefault('tok_rt', {})['classes'] = n_all
     ctx.stats['tok_rt']['pairs'] = n_pairs
